@@ -70,13 +70,21 @@ func (f *Func) Init(raw string) error {
 	}
 	// Only the path part is escaped.
 	var err error
-	if f.Complete, err = url.QueryUnescape(raw); err != nil {
-		return fmt.Errorf("bad function reference: %w", err)
-	}
-	// Update the index in the unescaped string.
-	endPkg += len(f.Complete) - len(raw)
 	if endPkg != -1 {
-		f.ImportPath = f.Complete[:endPkg]
+		// Unescape the package path and the rest separately so that the split
+		// index stays exact: resolving escapes on either side of the dot
+		// changes the lengths independently.
+		var rest string
+		if f.ImportPath, err = url.QueryUnescape(raw[:endPkg]); err == nil {
+			rest, err = url.QueryUnescape(raw[endPkg:])
+		}
+		if err != nil {
+			return fmt.Errorf("bad function reference: %w", err)
+		}
+		f.Complete = f.ImportPath + rest
+		endPkg = len(f.ImportPath)
+	} else if f.Complete, err = url.QueryUnescape(raw); err != nil {
+		return fmt.Errorf("bad function reference: %w", err)
 	}
 	f.Name = f.Complete[endPkg+1:]
 	if idx := strings.LastIndexByte(f.Name, ' '); idx > -1 {
